@@ -383,7 +383,30 @@ func vSameAsModel(rs *Store, k types.StoreKey, m map[string]string) bool {
 		n++
 	}
 	it.Close()
-	return n == len(m)
+	if n != len(m) {
+		return false
+	}
+	// descending: the same entries in the opposite order
+	var fwd, bwd []string
+	it = st.Iterator(nil, nil)
+	for ; it.Valid(); it.Next() {
+		fwd = append(fwd, string(it.Key()))
+	}
+	it.Close()
+	rit := st.ReverseIterator(nil, nil)
+	for ; rit.Valid(); rit.Next() {
+		bwd = append(bwd, string(rit.Key()))
+	}
+	rit.Close()
+	if len(fwd) != len(bwd) {
+		return false
+	}
+	for i := range fwd {
+		if fwd[i] != bwd[len(bwd)-1-i] || (i > 0 && fwd[i-1] >= fwd[i]) {
+			return false
+		}
+	}
+	return true
 }
 
 // VerifC12_RealHistory: a symbolic program of writes/deletes (one op per store per block, from an alphabet with
